@@ -274,13 +274,20 @@ def _noise_values(K, dtype):
     return sorted(set(O.midpoints(K)) | set(MENU_FULL) | extra)
 
 
-def _fixed_uniform(t):
+def _fixed_uniform(t, t64=None):
+    """t: the noise for a generator of the parameters' dtype; t64: the same grid with float64's own extremes, handed
+    out when the draw asks the generator for float64 numbers although the parameters are narrower"""
     def uni(shape, dt, device, label, ch):
         if tuple(shape) != tuple(t.shape):
             raise AssertionError(f"unexpected noise shape {tuple(shape)} vs {tuple(t.shape)} for {label}")
+        if t64 is not None and dt == torch.float64:
+            return t64.clone()
         return t.to(dt)
 
     return uni
+
+
+_TO64 = {1.0 - 2.0 ** -24: 1.0 - 2.0 ** -53, 2.0 ** -24: 2.0 ** -53}
 
 
 def _lp_close(a, b, tol):
@@ -346,10 +353,21 @@ def run_relaxdist(ctx, cfg):
         i = mask.nonzero()[0].tolist()
         return bdesc(i)
 
+    nz64 = None
+    old_default = torch.get_default_dtype()
+    if cfg.get("default_dtype") == "float64":
+        sig0["default_dtype"] = "float64"
+        nz64 = nz.clone()
+        for k32, k64 in _TO64.items():
+            nz64[nz == k32] = k64
+        torch.set_default_dtype(torch.float64)
     try:
-        with ScriptedRandom(Chooser(), uniform=_fixed_uniform(nz)):
-            zc = dist.csample(b)
-            zr = dist.rsample()
+        try:
+            with ScriptedRandom(Chooser(), uniform=_fixed_uniform(nz, nz64)):
+                zc = dist.csample(b)
+                zr = dist.rsample()
+        finally:
+            torch.set_default_dtype(old_default)
         hb = dist.threshold(zc)
         eq = (hb == b) if logistic else (hb == b).all(-1)
         ctx.case(n_cases, nontrivial=n_cases)
